@@ -380,8 +380,8 @@ def run(eng, R):
     R.ob("Dsw", "is_diagonal:exact", not tol and not any(o in ("Lt", "LtE", "Gt", "GtE") for o in cmps), (isd.file, isd.lineno),
          "is_diagonal uses a tolerance (%s %s): a covariance with small but non-zero correlations is treated as diagonal and do_fit silently minimises the pointwise cost" % (tol, cmps))
     df = p.method(FB, "do_fit")
-    txt = ast.unparse(df.node)
-    R.ob("Dsw", "do_fit:cost selection", "is_diagonal(self.total_cov_mat)" in txt and "_cost_function_pointwise.name" in txt and "self._cost_function.name" in txt, eng.where(df),
+    txt = eng.csrc(df)  # canonical form: if/else, conditional expression, negated test and a temporary for the name are the same selection
+    R.ob("Dsw", "do_fit:cost selection", "self._fitter.parameter_to_minimize = (self._cost_function_pointwise if is_diagonal(self.total_cov_mat) else self._cost_function).name" in txt, eng.where(df),
          "do_fit must minimise the pointwise twin only if the total covariance matrix is diagonal, the covariance cost otherwise")
 
 
